@@ -160,6 +160,12 @@ impl CbCfg {
 pub type TransitionLog = Arc<Mutex<Vec<(u64, usize, CircuitState, CircuitState)>>>;
 
 pub fn build(cfg: &CbCfg, inner: Shared, origin: tokio::time::Instant) -> (Box<dyn Cb>, TransitionLog) {
+    build_nested(cfg, inner, origin, None)
+}
+
+/// `nest`: listeners that run inside the breaker's critical sections call its hook, so that an
+/// armed caller is polled from there (emulated lock contention, see trv_core::nest).
+pub fn build_nested(cfg: &CbCfg, inner: Shared, origin: tokio::time::Instant, nest: Option<Arc<trv_core::nest::Nest>>) -> (Box<dyn Cb>, TransitionLog) {
     let log: TransitionLog = Arc::new(Mutex::new(vec![]));
     let l2 = log.clone();
     let inner_for_step = inner.clone();
@@ -173,6 +179,10 @@ pub fn build(cfg: &CbCfg, inner: Shared, origin: tokio::time::Instant) -> (Box<d
             let step = inner_for_step.lock().unwrap().step;
             l2.lock().unwrap().push((now, step, from, to));
         });
+    if let Some(n) = nest {
+        let (n1, n2, n3, n4) = (n.clone(), n.clone(), n.clone(), n.clone());
+        b = b.on_call_permitted(move |_| n1.hook()).on_call_rejected(move || n2.hook()).on_success(move |_| n3.hook()).on_failure(move |_| n4.hook());
+    }
     if cfg.time_based {
         b = b.sliding_window_type(SlidingWindowType::TimeBased).sliding_window_duration(Duration::from_millis(cfg.window_ms));
     }
